@@ -6,11 +6,13 @@ package route
 import (
 	"context"
 	"fmt"
+	"io"
 	"net/http"
 	"strings"
 	"sync"
 
 	"google.golang.org/genproto/googleapis/api/annotations"
+	"google.golang.org/grpc"
 	"google.golang.org/protobuf/proto"
 	"google.golang.org/protobuf/reflect/protoreflect"
 	"google.golang.org/protobuf/types/descriptorpb"
@@ -171,6 +173,15 @@ func WorldRules(rules []*annotations.HttpRule) *dyn.World {
 	var svcs []*descriptorpb.ServiceDescriptorProto
 	for i, r := range rules {
 		ms := dyn.MethodSpec{Name: "Mth", In: ".rt.Req", Out: ".rt.Rsp", Rule: r}
+		if i%2 == 1 {
+			// every other service declares a streaming method (with a rule of its own on a literal no
+			// generated template spells, POST /rt-feed/svcN/{name}) BEFORE the unary one, as real proto files do: the position of a method
+			// among its service's methods differs from its position among the unary ones
+			feed := dyn.MethodSpec{Name: "Feed", In: ".rt.Req", Out: ".rt.Rsp", ClientStream: true, ServerStream: true,
+				Rule: &annotations.HttpRule{Pattern: &annotations.HttpRule_Post{Post: FeedPath(i) + "/{name}"}, Body: "*"}}
+			svcs = append(svcs, dyn.Svc(fmt.Sprintf("Svc%d", i), feed, ms))
+			continue
+		}
 		svcs = append(svcs, dyn.Svc(fmt.Sprintf("Svc%d", i), ms))
 	}
 	w, err := dyn.NewWorld(dyn.File("rt.proto", Pkg, msgs, enums, svcs))
@@ -179,6 +190,9 @@ func WorldRules(rules []*annotations.HttpRule) *dyn.World {
 	}
 	return w
 }
+
+// FeedPath is the literal prefix of the rule of service i's streaming method Feed (odd i only).
+func FeedPath(i int) string { return fmt.Sprintf("/rt-feed/svc%d", i) }
 
 // Built is a mux with the services of a rule set registered.
 type Built struct {
@@ -209,7 +223,15 @@ func Register(mux *larking.Mux, w *dyn.World, rec *Recorder, i int) (err error, 
 		// (rsp_only stays empty: larking re-encodes a dynamicpb reply, whose field order on the
 		// wire is deliberately unstable, and several checks compare response bytes)
 		return rsp, nil
-	}, nil)
+	}, func(full string, in, out protoreflect.MessageDescriptor, ss grpc.ServerStream) error {
+		// the Feed methods: record the call like any other, answer nothing
+		m := dynamicpb.NewMessage(in)
+		if err := ss.RecvMsg(m); err != nil && err != io.EOF {
+			return err
+		}
+		rec.add(Call{Method: full, Msg: m})
+		return nil
+	})
 	defer func() {
 		if p := recover(); p != nil {
 			pnc = p
